@@ -5,5 +5,7 @@ import (
 )
 
 var registry = map[string]func(){
-	"github.com/xjslang/xjs/sourcemap.ZZH9aVLQ": sourcemap.ZZH9aVLQ,
+	"github.com/xjslang/xjs/sourcemap.ZZH9aVLQ":      sourcemap.ZZH9aVLQ,
+	"github.com/xjslang/xjs/sourcemap.ZZH9bMappings": sourcemap.ZZH9bMappings,
+	"github.com/xjslang/xjs/sourcemap.ZZH9cHistory":  sourcemap.ZZH9cHistory,
 }
